@@ -18,6 +18,8 @@ EXPLANATION = (
     'bounding_box value that sized the grid; (R5, thorough) the rectangle frame used by corners '
     'equals centre + R(angle)(±w/2, ±h/2). Not decided: floor/ceil rounding within an ulp of a pixel '
     'edge; membership-inside-box for polygons is taken from the min/max form.')
+EXPLANATION_ADDED = (' (R6) neither bounding_box nor to_mask nor any property of self they read remembers a result (memoising decorator or a store into self): the box is recomputed from the current parameters and operands.')
+EXPLANATION += EXPLANATION_ADDED
 TRUSTED = ['np.floor/np.ceil/int on floats', 'ndarray.min()/max() are the extreme elements',
            'np.cos/np.sin of an angle Quantity']
 ASSUMPTIONS = ['real arithmetic', 'support function = tight axis-aligned extent of a convex shape']
